@@ -16,6 +16,7 @@ from concurrent.futures import ThreadPoolExecutor
 
 HERE = os.path.dirname(os.path.abspath(__file__))
 VERIF = os.path.dirname(HERE)
+REPO = os.environ.get("VERIF_REPO", "/repo")
 sys.path.insert(0, HERE)
 import extract as EX  # noqa
 import vspec as VS    # noqa
@@ -362,6 +363,32 @@ def run_replay(args, timeout=600):
     return None
 
 
+SIDE_TABLE_PROPS = ("C22", "C05")
+
+
+def precomputed_table_check():
+    """The stub precomputed_hash (unit TREEHASH) assumes entry v of more_ops::PRECOMPUTED_HASHES is
+    sha256(0x01 || canonical bytes of v).  The table is finite (37 hex literals in the source text),
+    so the assumption is checked completely on every run, against Python's hashlib."""
+    import hashlib
+    try:
+        src = open(os.path.join(REPO, "src", "more_ops.rs")).read()
+        a = src.index("pub const PRECOMPUTED_HASHES")
+        b = src.index("\n];", a)
+        entries = re.findall(r'hex!\(\s*"([0-9a-fA-F]{64})"\s*\)', src[a:b])
+        decl = re.search(r"PRECOMPUTED_HASHES\s*:\s*\[\s*\[\s*u8\s*;\s*32\s*\]\s*;\s*(\d+)\s*\]", src[a:b])
+        n = int(decl.group(1)) if decl else -1
+    except (OSError, ValueError) as e:
+        return {"found": False, "error": f"cannot read the table: {e}"}
+    if n != len(entries):
+        return {"found": False, "error": f"declared length {n} but {len(entries)} hex literals parsed"}
+    for v, h in enumerate(entries):
+        want = hashlib.sha256(bytes([1]) + (bytes([v]) if v else b"")).hexdigest()
+        if h.lower() != want:
+            return {"found": True, "finder": "precomputed-table", "index": v, "table": h.lower(), "sha256_1_v": want}
+    return {"found": False, "finder": "precomputed-table", "entries": len(entries)}
+
+
 def check_property(pid, tier="quick", seed=0):
     t0 = time.time()
     units, fnspecs = VS.load_all(os.path.join(VERIF, "contracts"))
@@ -523,8 +550,27 @@ def check_property(pid, tier="quick", seed=0):
     for inf, f, r in violations:
         real_violations.append((inf, f, r, ""))
 
+    # ---- concrete side conditions (finite tables an assumed contract relies on) ------------------
+    side_results = []
+    side_violation = None
+    if pid in SIDE_TABLE_PROPS:
+        side = precomputed_table_check()
+        side_results.append(side)
+        if side.get("found"):
+            side_violation = side
+        elif side.get("error"):
+            problems.append("precomputed-hash table check: " + side["error"])
+
     # ---- violations ---------------------------------------------------------------------------
     rc = 1 if any(l.startswith("VIOLATION") for l in kani_lines) else 0
+    if side_violation:
+        os.makedirs(os.path.join(VERIF, "evidence", "replay"), exist_ok=True)
+        rpath = os.path.join(VERIF, "evidence", "replay", f"{pid}-precomputed-table.json")
+        with open(rpath, "w") as fh:
+            json.dump({"property": pid, "failed_obligation": "assumed contract of precomputed_hash (table entry == sha256(1 || small integer))",
+                       "failing_input": side_violation, "replay_cmd": f"./check {pid} --replay {rpath}"}, fh, indent=1)
+        out_lines.append(f"VIOLATION property={pid} replay={rpath}")
+        rc = 1
     os.makedirs(os.path.join(VERIF, "evidence", "replay"), exist_ok=True)
     finder_timeout = 900 if tier == "thorough" else 300
     finder_result = None
